@@ -1,5 +1,4 @@
 # piece.rs (second part) — free-list operations with heap-level contracts (needs prelude_heap.rs)
-@mod piece2
 @raw
 verus! {
 /// what a caller must know about the slot it frees
@@ -8,6 +7,66 @@ pub open spec fn can_push(b: Seq<u8>, pm: PieceMgr, w: HeapW, o: nat, size: nat)
 }
 } // verus!
 @end
+@raw
+verus! {
+/// index of the first member at or after `from` whose slot is at least `need` bytes (l.len() if none)
+pub open spec fn first_fit(slots: Map<nat, SlotW>, l: Seq<nat>, need: nat, from: int) -> int
+    decreases l.len() - from
+{
+    if from < 0 || from >= l.len() { l.len() as int } else if slots[l[from]].size >= need { from } else { first_fit(slots, l, need, from + 1) }
+}
+pub proof fn lemma_ff_eq(s1: Map<nat, SlotW>, s2: Map<nat, SlotW>, l: Seq<nat>, need: nat, from: int)
+    requires forall|i: int| 0 <= i < l.len() ==> s1[#[trigger] l[i]].size == s2[l[i]].size, 0 <= from
+    ensures first_fit(s1, l, need, from) == first_fit(s2, l, need, from)
+    decreases l.len() - from
+{
+    if from < l.len() { if s1[l[from]].size < need { lemma_ff_eq(s1, s2, l, need, from + 1); } }
+}
+pub proof fn lemma_ff_range(s: Map<nat, SlotW>, l: Seq<nat>, need: nat, from: int)
+    requires 0 <= from <= l.len()
+    ensures from <= first_fit(s, l, need, from) <= l.len(),
+        first_fit(s, l, need, from) < l.len() ==> s[l[first_fit(s, l, need, from)]].size >= need,
+        forall|j: int| from <= j < first_fit(s, l, need, from) ==> s[#[trigger] l[j]].size < need,
+    decreases l.len() - from
+{
+    if from < l.len() { if s[l[from]].size < need { lemma_ff_range(s, l, need, from + 1); } }
+}
+/// which member a pop takes: the head for an exact-size class, first fit on the shared large list
+pub open spec fn pop_idx(w: HeapW, need: nat) -> int {
+    if need >= 1024 { first_fit(w.slots, w.lists[15], need, 0) } else if w.lists[class_idx(need)].len() > 0 { 0 } else { 0 }
+}
+/// the heap, offset and slot size after allocating a slot for non-free content `c` whose estimate rounds to `need`
+pub open spec fn w_alloc(w: HeapW, len: nat, need: nat, c: SlotC) -> (HeapW, nat, nat) {
+    let cl = class_idx(need);
+    let l = w.lists[cl];
+    let k = pop_idx(w, need);
+    if k < l.len() {
+        let o = l[k];
+        let sz = w.slots[o].size;
+        (w_set(w_unlink(w, cl, k), o, SlotW { size: sz, c: c }), o, sz)
+    } else {
+        (w_set(w, len, SlotW { size: need, c: c }), len, need)
+    }
+}
+/// the heap after write_piece: overwrite in place when the slot is large enough, otherwise free the old slot and allocate
+pub open spec fn w_write(w: HeapW, len: nat, is_new: bool, off: nat, need: nat, c: SlotC) -> (HeapW, nat, nat) {
+    if !is_new && need <= w.slots[off].size {
+        (w_set(w, off, SlotW { size: w.slots[off].size, c: c }), off, w.slots[off].size)
+    } else {
+        w_alloc(if is_new { w } else { w_push(w, off) }, len, need, c)
+    }
+}
+/// result of a pop as a function of the witness
+pub open spec fn pop_post(b0: Seq<u8>, b1: Seq<u8>, pm: PieceMgr, w: HeapW, need: nat, r: nat) -> bool {
+    let c = class_idx(need);
+    let l = w.lists[c];
+    let k = pop_idx(w, need);
+    if k >= l.len() { r == 0 && b1 == b0 }
+    else { r == l[k] && r != 0 && w.slots[r].size >= need && heap_ok(b1, pm, w_unlink(w, c, k)) }
+}
+} // verus!
+@end
+@mod piece2
 
 @fn src/filedb/inner/piece.rs | impl VarFile | push_free_piece_list
 @opts rlimit=60
@@ -18,7 +77,8 @@ old_piece_offset.val == 0 || exists|w: HeapW| #[trigger] can_push(old(self)@.byt
 okh(old(self)@, final(self)@, r), final(self).piece_mgr == old(self).piece_mgr,
 old_piece_offset.val == 0 ==> r is Ok && final(self)@ == old(self)@,
 r is Ok && old_piece_offset.val != 0 ==> forall|w: HeapW| #[trigger] can_push(old(self)@.bytes, old(self).piece_mgr, w, old_piece_offset.val as nat, old_piece_size.val as nat) ==> heap_ok(final(self)@.bytes, old(self).piece_mgr, w_push(w, old_piece_offset.val as nat)),
-r is Ok && old_piece_offset.val != 0 ==> final(self)@.unflushed && final(self)@.unsynced
+r is Ok && old_piece_offset.val != 0 ==> final(self)@.unflushed && final(self)@.unsynced,
+r is Ok ==> final(self)@.bytes.len() == old(self)@.bytes.len()
 @entry
 let ghost b0 = old(self)@.bytes;
 let ghost pm = old(self).piece_mgr;
@@ -69,44 +129,6 @@ proof {
 }
 @end
 
-@raw
-verus! {
-/// index of the first member at or after `from` whose slot is at least `need` bytes (l.len() if none)
-pub open spec fn first_fit(slots: Map<nat, SlotW>, l: Seq<nat>, need: nat, from: int) -> int
-    decreases l.len() - from
-{
-    if from < 0 || from >= l.len() { l.len() as int } else if slots[l[from]].size >= need { from } else { first_fit(slots, l, need, from + 1) }
-}
-pub proof fn lemma_ff_eq(s1: Map<nat, SlotW>, s2: Map<nat, SlotW>, l: Seq<nat>, need: nat, from: int)
-    requires forall|i: int| 0 <= i < l.len() ==> s1[#[trigger] l[i]].size == s2[l[i]].size, 0 <= from
-    ensures first_fit(s1, l, need, from) == first_fit(s2, l, need, from)
-    decreases l.len() - from
-{
-    if from < l.len() { if s1[l[from]].size < need { lemma_ff_eq(s1, s2, l, need, from + 1); } }
-}
-pub proof fn lemma_ff_range(s: Map<nat, SlotW>, l: Seq<nat>, need: nat, from: int)
-    requires 0 <= from <= l.len()
-    ensures from <= first_fit(s, l, need, from) <= l.len(),
-        first_fit(s, l, need, from) < l.len() ==> s[l[first_fit(s, l, need, from)]].size >= need,
-        forall|j: int| from <= j < first_fit(s, l, need, from) ==> s[#[trigger] l[j]].size < need,
-    decreases l.len() - from
-{
-    if from < l.len() { if s[l[from]].size < need { lemma_ff_range(s, l, need, from + 1); } }
-}
-/// which member a pop takes: the head for an exact-size class, first fit on the shared large list
-pub open spec fn pop_idx(w: HeapW, need: nat) -> int {
-    if need >= 1024 { first_fit(w.slots, w.lists[15], need, 0) } else if w.lists[class_idx(need)].len() > 0 { 0 } else { 0 }
-}
-/// result of a pop as a function of the witness
-pub open spec fn pop_post(b0: Seq<u8>, b1: Seq<u8>, pm: PieceMgr, w: HeapW, need: nat, r: nat) -> bool {
-    let c = class_idx(need);
-    let l = w.lists[c];
-    let k = pop_idx(w, need);
-    if k >= l.len() { r == 0 && b1 == b0 }
-    else { r == l[k] && r != 0 && w.slots[r].size >= need && heap_ok(b1, pm, w_unlink(w, c, k)) }
-}
-} // verus!
-@end
 
 @fn src/filedb/inner/vfile.rs | impl VarFile | write_piece_clear
 @serves C06 C18
